@@ -24,6 +24,8 @@ import Driver.Suites.Rm
 import Driver.Suites.Wscap
 import Driver.Suites.Bucket
 import Driver.Suites.Sem
+import Driver.Suites.Codec
+import Driver.Suites.Reader
 /-! Table of suites known to the driver.  One line per suite (merge=union friendly). -/
 namespace Driver
 def registry : List Suite := [
@@ -59,5 +61,7 @@ def registry : List Suite := [
   Suites.Wscap.suite,
   Suites.Bucket.suite,
   Suites.Sem.suite,
+  Suites.Codec.suite,
+  Suites.Reader.suite,
 ]
 end Driver
